@@ -43,6 +43,7 @@ def scenarios(tier, seed):
         add("stub_posterior", n=2, m=2, mean="constant", lik="gaussian", cfg={}, batch=2)
         add("real_kernel", kernel="rbf", n=2, m=2, cfg={})
         add("real_kernel", kernel="rq", n=2, m=1, cfg={"fpv": True})
+        add("replaced_targets", n=2, m=2)
     else:
         for cfg in all_configs(SETTINGS):
             add("stub_posterior", n=3, m=2, mean="constant", lik="gaussian", cfg=cfg, batch=0)
@@ -51,6 +52,7 @@ def scenarios(tier, seed):
                 add("stub_posterior", n=n, m=m, mean=["constant", "zero", "linear"][i % 3],
                     lik=["gaussian", "fixed", "fixed_learn"][(i + n) % 3], cfg=cfg, batch=0)
             add("stub_posterior", n=2, m=2, mean="constant", lik=["gaussian", "fixed"][i % 2], cfg=cfg, batch=2)
+        add("replaced_targets", n=3, m=2)
         for k in ["rbf", "rq"]:
             for cfg in [{}, {"fpv": True}, {"lazy": False}, {"fsolves": False}]:
                 add("real_kernel", kernel=k, n=2, m=2, cfg=cfg)
@@ -139,6 +141,47 @@ def stub_posterior(S, n, m, mean, lik, cfg, batch):
                 nb = noise_s[b].reshape(-1)[0]
                 S.prove_eq(pcov_t[b], Cref + eye(m) * nb, tag + "likelihood(posterior).cov")
                 S.prove_eq(pmean_t[b], Mref, tag + "likelihood(posterior).mean")
+
+
+def replaced_targets(S, n, m):
+    """predict, replace the training targets (set_train_data(targets=...)), predict again: conditional on the NEW targets"""
+    N = n + m
+    x, xs = labels(0, n), labels(n, N)
+    y = S.randn(n)
+    likelihood = gpytorch.likelihoods.GaussianLikelihood()
+    Gs, Gc = S.factor("g", N)
+    table = torch.zeros(N, N)
+    model = StubGP(x, y, likelihood, TableKernel(table), make_mean("constant"))
+    for p in model.parameters():
+        p.requires_grad_(False)
+    model.eval(); likelihood.eval()
+    S.sym_tensor(y, "y")
+    declare_params(S, model.mean_module, "mean_")
+    declare_params(S, likelihood, "lik_")
+    y2 = S.randn(n)
+    Y2 = S.sym_tensor(y2, "ynew")
+    with S.mode():
+        sig = as_sym_arr(SH.get(likelihood.noise)).reshape(-1)[0]
+        J = Gs @ Gs.T
+        K = J.copy()
+        for i in range(n):
+            K[i, i] = K[i, i] - sig
+        with torch.no_grad():
+            table.copy_(Gc @ Gc.T)
+            for i in range(n):
+                table[i, i] -= sig.c
+        SH.put(table, K, check=True)
+        mall = as_sym_arr(SH.get(model.mean_module(labels(0, N))))
+        _ = model(xs).mean
+        model.set_train_data(targets=y2)
+        out = model(xs)
+        mean_t, cov_t = out.mean, out.covariance_matrix
+    Gtr = Gs[:n, :n]
+    Ksx = K[n:, :n]
+    alpha = spd_solve(Gtr, (Y2 - mall[:n]).reshape(n, 1))
+    Bm = spd_solve(Gtr, Ksx.T)
+    S.prove_eq(mean_t, (Ksx @ alpha).reshape(-1) + mall[n:], "mean after replacing the targets = conditional on the new targets")
+    S.prove_eq(cov_t, K[n:, n:] - Ksx @ Bm, "covariance after replacing the targets")
 
 
 def real_kernel(S, kernel, n, m, cfg):
